@@ -21,9 +21,13 @@ vars == <<l>>
 
 Problems(ev) == Judge(ev, ev)
 
+\* the operand-matrix family contains products and quotients of variables and divisions by zero: the
+\* compiler rejects those (not linear); such an event says nothing about answers and is only counted
+NotLinear(ev) == "may_reject" \in DOMAIN ev /\ ev.out = "linearization_error"
 Check(ev) ==
-   LET pb == Problems(ev) IN
-   IF pb = {} THEN PrintT(<<"STAT", ev.id, ev.out, Cardinality(Envs(ev)), Cardinality({env \in Envs(ev) : Sat(ev, env)})>>)
+   LET pb == IF NotLinear(ev) THEN {} ELSE Problems(ev) IN
+   IF NotLinear(ev) THEN PrintT(<<"STAT", ev.id, "not-linear", 0, 0>>)
+   ELSE IF pb = {} THEN PrintT(<<"STAT", ev.id, ev.out, Cardinality(Envs(ev)), Cardinality({env \in Envs(ev) : Sat(ev, env)})>>)
    ELSE PrintT(<<"REJECT", "C03", ev.id, CHOOSE x \in pb : TRUE, ToJson(pb)>>)
 
 Init == l = Start
